@@ -107,25 +107,27 @@ def confirm(a):
 
 
 def detect(a):
+    """run the check(s) against the seeded change in a SCRATCH worktree of /repo HEAD (VERIF_REPO), never in /repo itself"""
     dst = SEEDED / a.seed_id
     meta = json.loads((dst / "meta.json").read_text())
     checks = a.checks or [meta["property"]]
-    rc, out = sh(["git", "-C", "/repo", "status", "--porcelain"])
-    assert out.strip() == "", "/repo is not clean"
-    rc, out = sh(["git", "-C", "/repo", "apply", str(dst / "patch.diff")])
-    assert rc == 0, "patch does not apply to /repo: " + out
+    wt = f"/tmp/rf/det_{a.seed_id}"
+    sh(["git", "-C", "/repo", "worktree", "prune"])
+    sh(["rm", "-rf", wt])
+    rc, out = sh(["git", "-C", "/repo", "worktree", "add", "-q", "--detach", wt, "HEAD"])
+    assert rc == 0, "cannot create scratch worktree: " + out
     result = {}
     try:
+        rc, out = sh(["git", "-C", wt, "apply", str(dst / "patch.diff")])
+        assert rc == 0, "patch does not apply to /repo HEAD: " + out
         for c in checks:
             t0 = time.time()
-            rc, out = sh([str(ROOT / "check"), c, "--tier", a.tier], cwd=str(ROOT), env={"VERIF_SEED": str(a.seed)}, timeout=14000)
+            rc, out = sh([str(ROOT / "check"), c, "--tier", a.tier], cwd=str(ROOT), env={"VERIF_SEED": str(a.seed), "VERIF_REPO": wt}, timeout=14000)
             keys = [ln.strip()[5:] for ln in out.splitlines() if ln.strip().startswith("key:")][:3]
-            result[c] = dict(tier=a.tier, exit=rc, detected=(rc == 1), first_keys=keys, wall_s=round(time.time() - t0))
+            result[c] = dict(tier=a.tier, exit=rc, detected=(rc == 1), first_keys=keys, wall_s=round(time.time() - t0), where="scratch worktree via VERIF_REPO")
     finally:
-        sh(["git", "-C", "/repo", "checkout", "--", "."])
-        for f in (ROOT / "replays").glob("*.json"):
-            f.unlink()
-    meta["detection"].update(result)
+        sh(["git", "-C", "/repo", "worktree", "remove", "--force", wt])
+    meta.setdefault("detection", {}).update(result)
     (dst / "meta.json").write_text(json.dumps(meta, indent=1))
     return result
 
